@@ -5,11 +5,11 @@ wt=$1; d=$2
 cd "$wt" || exit 2
 git checkout -q -- . ; rm -f tests/demo.rs
 cp "$d/demo.rs" tests/demo.rs
-clean=$(cargo test --offline --test demo 2>&1 | grep -E "^test result" | head -1)
+clean=$(cargo test --offline $FEATURES --test demo 2>&1 | grep -E "^test result" | head -1)
 git apply "$d/patch.diff" || { echo "patch does not apply"; exit 2; }
 rm -f tests/demo.rs
-suite=$(cargo test --workspace --offline 2>&1 | grep -E "^test result" | awk '{p+=$4; f+=$6} END {print p" passed, "f" failed"}')
+suite=$(cargo test --workspace --offline $SUITEFLAGS 2>&1 | grep -E "^test result" | awk '{p+=$4; f+=$6} END {print p" passed, "f" failed"}')
 cp "$d/demo.rs" tests/demo.rs
-mut=$(cargo test --offline --test demo 2>&1 | grep -E "^test result" | head -1)
+mut=$(cargo test --offline $FEATURES --test demo 2>&1 | grep -E "^test result" | head -1)
 git checkout -q -- . ; rm -f tests/demo.rs
 echo "clean demo: $clean"; echo "mutant suite: $suite"; echo "mutant demo: $mut"
